@@ -148,12 +148,48 @@ pub fn cmd_explore(opt: &HashMap<String, String>) -> i32 {
     let max_depth: usize = opt.get("max-depth").and_then(|s| s.parse().ok()).unwrap_or(64);
     let wall_cap: f64 = opt.get("wall-cap").and_then(|s| s.parse().ok()).unwrap_or(if thorough { 3000.0 } else { 240.0 });
     let d_after: usize = opt.get("d-after").and_then(|s| s.parse().ok()).unwrap_or(if thorough { 2 } else { 1 });
+    let skips = crate::contain::load_skips(opt.get("skip-file"));
+    let mut depth_caps: HashMap<u64, usize> = HashMap::new();
+    if let Some(dc) = opt.get("depth-cap") {
+        for part in dc.split(',') {
+            let mut it = part.split(':');
+            let a = it.next().unwrap_or("");
+            let b: Option<usize> = it.next().and_then(|x| x.parse().ok());
+            if let Some(b) = b {
+                if a == "seeds" {
+                    // every seeded phase
+                    for ph in 10..400u64 {
+                        let e = depth_caps.entry(ph).or_insert(b);
+                        *e = (*e).min(b);
+                    }
+                } else if let Ok(a) = a.parse::<u64>() {
+                    let e = depth_caps.entry(a).or_insert(b);
+                    *e = (*e).min(b);
+                }
+            }
+        }
+    }
+    if let Some(mf) = opt.get("marker-file") {
+        if !crate::contain::init(mf) {
+            eprintln!("warning: cannot create marker file {mf}; running without crash attribution");
+        }
+    }
     let known = load_known(opt.get("known"));
     let known_rules: Vec<String> = known.iter().map(|k| k.rule.clone()).collect();
     let replay_dir = opt.get("replay-dir").cloned().unwrap_or_else(|| "/verif/replays".into());
     let big = thorough;
 
     let u = Universe::new(nkeys, big);
+    static STOP_MONITOR: std::sync::atomic::AtomicBool = std::sync::atomic::AtomicBool::new(false);
+    if let Some(hf) = opt.get("hang-file") {
+        let hf = hf.clone();
+        let uu = u.clone();
+        let deadline: f64 = opt.get("hang-deadline").and_then(|s| s.parse().ok()).unwrap_or(4.0);
+        std::thread::Builder::new()
+            .name("monitor".into())
+            .spawn(move || crate::contain::monitor(deadline, hf, uu, &STOP_MONITOR))
+            .expect("monitor thread");
+    }
     let gb = growth_bound(&u, &caps);
     let ctx = Ctx { u: &u, sel, growth_bound: Some(gb), fault_props: 0, extra_ids: vec![], known_rules: known_rules.clone() };
 
@@ -204,6 +240,10 @@ pub fn cmd_explore(opt: &HashMap<String, String>) -> i32 {
             transitions: true,
             max_violations: 200,
             extra,
+            phase: 0,
+            skips: skips.clone(),
+            depth_cap: depth_caps.get(&0).copied(),
+            heavy_depth_limit: None,
         };
         let mut result = ex.run(&eo);
         novel = std::mem::take(&mut result.novel);
@@ -211,7 +251,8 @@ pub fn cmd_explore(opt: &HashMap<String, String>) -> i32 {
     }
     // continuation after a fault: every state reached by a fault that is not a
     // state of the closure is explored for d_after further operations
-    if (want(16) || want(17)) && !novel.is_empty() && phases[0].result.machinery.is_none() {
+    let verdict_reached = |phases: &Vec<Phase>| phases.iter().any(|ph| !ph.result.violations.is_empty() || ph.result.machinery.is_some());
+    if (want(16) || want(17)) && !novel.is_empty() && !verdict_reached(&phases) {
         let fp = sel & (p(16) | p(17));
         let ctx2 = Ctx { u: &u, sel: fp, growth_bound: None, fault_props: fp, extra_ids: vec![], known_rules: known_rules.clone() };
         let roots2: Vec<Root> = novel
@@ -237,6 +278,10 @@ pub fn cmd_explore(opt: &HashMap<String, String>) -> i32 {
             transitions: true,
             max_violations: 200,
             extra,
+            phase: 1,
+            skips: skips.clone(),
+            depth_cap: depth_caps.get(&1).copied(),
+            heavy_depth_limit: None,
         };
         let result = ex.run(&eo);
         phases.push(Phase { name: format!("continuation after fault (depth {})", d_after), result, roots: roots2, alpha_len, nkeys, fault_props: fp });
@@ -244,9 +289,12 @@ pub fn cmd_explore(opt: &HashMap<String, String>) -> i32 {
 
     // seeded, depth-bounded exploration from states the closure cannot reach
     let no_seeds = opt.contains_key("no-seeds");
-    if !no_seeds && phases.iter().all(|ph| ph.result.machinery.is_none()) {
+    if !no_seeds && !verdict_reached(&phases) {
         let seed_list = seeds(&u, thorough, fault_only);
-        for sd in seed_list {
+        for (seed_idx, sd) in seed_list.into_iter().enumerate() {
+            if verdict_reached(&phases) {
+                break;
+            }
             let ctx_s = Ctx { u: &u, sel, growth_bound: None, fault_props: 0, extra_ids: sd.extra_ids.clone(), known_rules: known_rules.clone() };
             let so = StateOpts {
                 exhaustive_pat_len,
@@ -283,6 +331,10 @@ pub fn cmd_explore(opt: &HashMap<String, String>) -> i32 {
                 transitions: true,
                 max_violations: 200,
                 extra,
+            phase: 10 + seed_idx as u64,
+            skips: skips.clone(),
+            depth_cap: depth_caps.get(&(10 + seed_idx as u64)).copied(),
+            heavy_depth_limit: Some(if thorough { 2 } else { 1 }),
             };
             let alpha_len = sd.alpha.len();
             let mut ex = Explorer::new(&ctx_s, vec![sd.root.clone()], sd.alpha.clone());
@@ -292,7 +344,7 @@ pub fn cmd_explore(opt: &HashMap<String, String>) -> i32 {
     }
 
     // C04: a second instantiation with unsized borrowed keys that alias stored keys
-    if want(4) && !opt.contains_key("no-strmap") && phases.iter().all(|ph| ph.result.machinery.is_none()) {
+    if want(4) && !opt.contains_key("no-strmap") && !verdict_reached(&phases) {
         let nk = if thorough { 6 } else { 4 };
         for hk in ALL_HK {
             let r = crate::strmap::explore(hk, nk, p(4));
